@@ -314,6 +314,17 @@ impl Ast {
         self.elements.as_mut_slice()
     }
 
+    /// Returns the table that maps the scoped identifiers of this AST's named elements to their indices.
+    pub(crate) fn lookup_table(&self) -> &HashMap<String, usize> {
+        &self.lookup_table
+    }
+
+    /// Replaces this AST's lookup table by one that was saved earlier. The elements added since then stay in the AST,
+    /// but can no longer be retrieved by identifier.
+    pub(crate) fn set_lookup_table(&mut self, lookup_table: HashMap<String, usize>) {
+        self.lookup_table = lookup_table;
+    }
+
     /// Moves a Slice element into this AST, and returns a [WeakPtr] to it.
     pub(crate) fn add_element<T: Element>(&mut self, element: OwnedPtr<T>) -> WeakPtr<T>
     where
